@@ -9,7 +9,6 @@ package gohlslib
 import (
 	"bytes"
 	"context"
-	"sync/atomic"
 	"errors"
 	"fmt"
 	"io"
@@ -18,6 +17,7 @@ import (
 	"strconv"
 	"strings"
 	"sync"
+	"sync/atomic"
 	"testing"
 	"testing/synctest"
 	"time"
